@@ -683,13 +683,15 @@ class Oracle:
         if t[0] == "Un": return self.open_if(t[2])
         return z3.BoolVal(False)
 
-    def wf(self, t):
-        """print(t) parses back to t: every operand sits where the grammar allows it without parentheses"""
+    def wf(self, t, source=False):
+        """print(t) parses back to t: every operand sits where the grammar allows it without parentheses.
+        source=True: t is the INPUT as written - there `- -x` (with a blank) is legal; the printer never emits that blank, so for an
+        output tree a minus directly over a minus is `--x`, a comment"""
         k = t[0]
         if k == "Bin":
             op, l, r = t[1], t[2], t[3]
             p = self.prec(op)
-            cs = [self.wf(l), self.wf(r), z3.Not(self.open_if(l))]
+            cs = [self.wf(l, source), self.wf(r, source), z3.Not(self.open_if(l))]
             if l[0] == "Bin":
                 cs.append(z3.Or(self.prec(l[1]) > p, z3.And(self.prec(l[1]) == p, z3.Not(self.right(op)))))
             elif l[0] == "Un":
@@ -703,17 +705,17 @@ class Oracle:
             return z3.And(cs)
         if k == "Un":
             e = t[2]
-            cs = [self.wf(e)]
+            cs = [self.wf(e, source)]
             if e[0] == "Bin":
                 cs.append(self.prec(e[1]) > z3.IntVal(self.UNARY))
-            if e[0] == "Un":
+            if e[0] == "Un" and not source:
                 cs.append(z3.Not(z3.And(t[1] == self.minus, e[1] == self.minus)))
             return z3.And(cs)
         if k == "Par":
-            return self.wf(t[1])
+            return self.wf(t[1], source)
         if k == "TA":
             e = t[1]
-            if e[0] == "Par": return self.wf(e)
+            if e[0] == "Par": return self.wf(e, source)
             if e[0] == "Leaf": return z3.Not(self.open_if(e))
             return z3.BoolVal(False)
         return z3.BoolVal(True)
